@@ -16,22 +16,30 @@ CONFIGS = {
     "MK4": dict(Keys={1}, Nodes={1, 2}, F=3, Times={0, 1, 2}, Replicas={1, 2, 3}, MaxOps=3, MaxMerges=0, Mode='"window"'),
     "MG": dict(Keys={1, 2}, Nodes={1, 2}, F=2, Times={0, 3, 4}, Replicas={1, 2}, MaxOps=3, MaxMerges=2, Mode='"prefix"'),
 }
+# C08's local facts on sets reached through merges (WithPurge): one origin, stamps inside one window, three operations
+# (single-source sets, OrSWotSet<1>: the cut-off does not wait for a second source)
+CONFIGS["MP"] = dict(Keys={1, 2}, Nodes={1}, F=3, Times={0, 1, 2, 3}, Replicas={1, 2}, MaxOps=3, MaxMerges=1, Mode='"window"', Sources={0})
+CONFIGS["MQ"] = dict(Keys={1, 2}, Nodes={1, 2}, F=2, Times={0, 1, 2, 3}, Replicas={1, 2}, MaxOps=2, MaxMerges=2, Mode='"prefix"')
+PURGE_TIERS = {"quick": ["MP", "MQ"], "thorough": ["MP", "MQ", "MG"]}
 TIERS = {"quick": ["MA", "ME", "MW", "MK3", "MK4"], "thorough": ["MA", "ME", "MW", "MK3", "MK4", "MB", "MC", "MF", "MG"]}
 INVARIANTS = ["C03_Commutative", "C03_Idempotent", "C03_Associative", "C03_MutualMerge",
               "C05_DiffExact", "C05_OneExchange", "C05_MutualRepair", "WellFormedInv"]
 
 
-def _one(ctx, binary, name):
+def _one(ctx, binary, name, with_purge=False):
     c = CONFIGS[name]
-    consts = dict(c, Sources={0, 1}, FixD6=True, RepairSrc=1)
-    mc_cfg = vlib.cfg_text(constants=dict(consts, EmitEdges=False), invariants=INVARIANTS, view="MCView")
+    srcs = c.get("Sources", {0, 1})
+    consts = dict(c, Sources=srcs, FixD6=True, RepairSrc=max(srcs), WithPurge=with_purge)
+    mc_cfg = vlib.cfg_text(constants=dict(consts, EmitEdges=False), invariants=(["C08_StillRefused", "WellFormedInv"] if with_purge else INVARIANTS),
+                           properties=["C08_PurgeInvisible"] if with_purge else (), view="MCView")
     mc, mc_text = vlib.run_tlc(ctx, "MC_OrswotMerge", mc_cfg, "mc_" + name, workers=5, extra=["-coverage", "1"],
                                timeout=3000, xmx="8g")
     mc_ok = vlib.require_clean_mc(ctx, mc, mc_text, "MC_OrswotMerge/" + name)
     gen_cfg = vlib.cfg_text(constants=dict(consts, EmitEdges=True), view="MCView", action_constraints=["PrintEdge"])
     out = ctx.path("replay_%s.json" % name)
     consumer = [binary, "replay-merge", "--input", "-", "--out", out, "--passthrough", ctx.path("gen_%s.tlc" % name),
-                "--f", str(c["F"]), "--keys", ",".join(map(str, sorted(c["Keys"]))), "--repair-src", "1"]
+                "--f", str(c["F"]), "--keys", ",".join(map(str, sorted(c["Keys"]))), "--repair-src", str(max(srcs)), "--sources", str(len(srcs)),
+                "--times", ",".join(map(str, sorted(c["Times"]))), "--nodes", ",".join(map(str, sorted(c["Nodes"])))] + (["--no-laws", "1"] if with_purge else [])
     gen, gen_text = vlib.tlc_pipe(ctx, "MC_OrswotMerge", gen_cfg, "gen_" + name, consumer, timeout=4000, xmx="8g")
     if gen["consumer_exit"] != 0 or not os.path.exists(out):
         raise vlib.ToolError("replayer failed on config %s (exit %s)" % (name, gen["consumer_exit"]))
@@ -45,11 +53,11 @@ def _one(ctx, binary, name):
                 constants={k: sorted(v) if isinstance(v, set) else v for k, v in c.items()})
 
 
-def run_all(ctx):
+def run_all(ctx, with_purge=False):
     binary = vlib.build_harness(ctx, "h-crdt")
     results = []
     with concurrent.futures.ThreadPoolExecutor(max_workers=3) as ex:
-        futs = [ex.submit(_one, ctx, binary, n) for n in TIERS[ctx.tier]]
+        futs = [ex.submit(_one, ctx, binary, n, with_purge) for n in (PURGE_TIERS if with_purge else TIERS)[ctx.tier]]
         for f in concurrent.futures.as_completed(futs):
             r = f.result()
             ctx.log("config %s: MC %d distinct / %d generated (%s); replayed %d edges, laws on %d states, %d violations, drift %d" % (
@@ -65,7 +73,7 @@ def judge(ctx, results, prop):
     samples = []
     for r in results:
         real = [v for v in r["rep"]["violations"] if v.get("property") == prop]
-        mc_bad = [v for v in r["mc"]["violated"] if v.startswith(prop) or v == "WellFormedInv"]
+        mc_bad = [v for v in r["mc"]["violated"] if v.startswith(prop) or (v == "WellFormedInv" and prop != "C08")]
         if mc_bad and not real:
             raise vlib.ToolError("config %s: TLC reports %s on the faithful layer but the real code shows no violation: "
                                  "the model misrepresents the code" % (r["name"], mc_bad))
@@ -73,6 +81,8 @@ def judge(ctx, results, prop):
             ctx.violations.append({"engine": "h-crdt replay-merge", "config": r["name"], "constants": r["constants"],
                                    "why": v["why"][:6], "path": v.get("path"), "edge": v.get("edge"), "live": v.get("live")})
         samples += r["rep"]["samples"][:2]
+    if prop == "C08" and (sum(r["rep"]["purge_edges"] for r in results) == 0 or sum(r["rep"]["by_kind"].get("merge", 0) for r in results) == 0):
+        raise vlib.ToolError("vacuous: no purge / no merge transition")
     if prop == "C05" and sum(r["rep"]["nonempty_diffs"] for r in results) == 0:
         raise vlib.ToolError("vacuous: every difference was empty")
     if sum(r["rep"]["by_kind"].get("merge", 0) + r["rep"]["by_kind"].get("repair", 0) for r in results) == 0:
@@ -87,7 +97,9 @@ def judge(ctx, results, prop):
         "configs": [dict(name=r["name"], constants=r["constants"], mc_distinct=r["mc"]["distinct"],
                          mc_generated=r["mc"]["generated"], mc_wall_s=r["mc"]["wall_s"], gen_wall_s=r["gen"]["wall_s"],
                          replayed_edges=r["rep"]["evaluations"], by_kind=r["rep"]["by_kind"],
-                         nonempty_diffs=r["rep"]["nonempty_diffs"], drift=r["rep"]["drift"]) for r in results],
+                         nonempty_diffs=r["rep"]["nonempty_diffs"], purge_edges=r["rep"].get("purge_edges"),
+                         effective_purges=r["rep"].get("effective_purges"), refused_probes=r["rep"].get("refused_probes"),
+                         drift=r["rep"]["drift"]) for r in results],
         "checker_cmd": results[0]["mc"]["cmd"],
     }
 
